@@ -38,7 +38,9 @@ Shapes == <<
   << Sub(<<<<0,0>>,<<0,3>>,<<3,3>>,<<3,0>>>>, TRUE) >>,                           \* 8 clockwise square (winding -1)
   << Sub(<<<<0,0>>,<<4,4>>,<<4,0>>,<<0,4>>>>, TRUE) >>,                           \* 9 bow-tie (windings -1 and +1)
   << Sub(<<<<0,0>>,<<4,0>>,<<4,4>>,<<0,4>>>>, TRUE),
-     Sub(<<<<2,1>>,<<2,3>>,<<4,3>>,<<4,1>>>>, TRUE) >>                            \* 10 hole touching the outer edge
+     Sub(<<<<2,1>>,<<2,3>>,<<4,3>>,<<4,1>>>>, TRUE) >>,                           \* 10 hole touching the outer edge
+  << Sub(<<<<0,0>>,<<2,0>>,<<2,3>>>>, FALSE),
+     Sub(<<<<3,1>>,<<4,1>>,<<4,4>>,<<3,4>>>>, TRUE) >>                            \* 11 two sub-paths, the FIRST one left open (filled as implicitly closed)
 >>
 NShapes == Len(Shapes)
 
@@ -67,8 +69,11 @@ PaintTab == [ black  |-> [rgb |-> <<0,0,0>>,     a |-> 255, pm |-> <<0,0,0,255>>
               blue   |-> [rgb |-> <<0,0,255>>,   a |-> 255, pm |-> <<0,0,255,255>>],
               blueh  |-> [rgb |-> <<0,0,255>>,   a |-> 128, pm |-> <<0,0,128,128>>],
               green  |-> [rgb |-> <<0,255,0>>,   a |-> 255, pm |-> <<0,255,0,255>>],
-              grey   |-> [rgb |-> <<128,128,128>>, a |-> 255, pm |-> <<128,128,128,255>>] ]
-PaintNames == <<"black","red","redh","dred","blue","blueh","green","grey">>
+              grey   |-> [rgb |-> <<128,128,128>>, a |-> 255, pm |-> <<128,128,128,255>>],
+              \* a linear gradient whose stops all have this colour (exact expectation; exercises the gradient branch of the rasterizer)
+              ggrey  |-> [rgb |-> <<128,128,128>>, a |-> 255, pm |-> <<128,128,128,255>>] ]
+PaintNames == <<"black","red","redh","dred","blue","blueh","green","grey","ggrey">>
+Grads == {"ggrey"}
 \* joins: 0 miter limit 4 | 1 miter limit 10 | 2 bevel | 3 round | 4 miter-clip limit 4 | 5 arcs limit 4
 JoinKind(j) == CASE j \in {0,1} -> "miter" [] j = 2 -> "bevel" [] j = 3 -> "round" [] j = 4 -> "miterclip" [] j = 5 -> "arcs"
 JoinLimit(j) == IF j = 1 THEN 10 ELSE 4
@@ -77,7 +82,7 @@ ImgW == 2
 ImgH == 3
 
 Header == [hdr |-> TRUE, W |-> CW, H |-> CH, shapes |-> Shapes, views |-> Views, paints |-> PaintTab,
-           dashes |-> <<DashArr(0), DashArr(1), DashArr(2)>>, joinlimit |-> <<4,10,4,4,4,4>>, imgw |-> ImgW, imgh |-> ImgH]
+           grads |-> Grads, dashes |-> <<DashArr(0), DashArr(1), DashArr(2)>>, joinlimit |-> <<4,10,4,4,4,4>>, imgw |-> ImgW, imgh |-> ImgH]
 
 \* ---------------------------------------------------------------------------------------------
 \* draws and programs
@@ -85,7 +90,7 @@ Header == [hdr |-> TRUE, W |-> CW, H |-> CH, shapes |-> Shapes, views |-> Views,
 RawDraws == IF Profile = "c12"
   THEN [shape: 1..6, view: 1..6, cs: {0}, fill: {"none","black","red","redh","dred"}, stroke: {"none","blue","blueh","red"},   \* 933 120 draws: TLC enumerates sets up to 10^6
         width: {1,2}, cap: 0..2, join: 0..5, dash: 0..2, off: {-1,0,1}, rule: {0,1}, img: {0,0,1}]
-  ELSE [shape: 1..NShapes, view: {1,2,3,4,5,6,8}, cs: 0..3, fill: {"none","red","green","grey","black"}, stroke: {"none","none","blue"},
+  ELSE [shape: 1..NShapes, view: {1,2,3,4,5,6,8}, cs: 0..3, fill: {"none","red","green","grey","black","ggrey"}, stroke: {"none","none","blue"},
         width: {1,2}, cap: {0}, join: {2,3}, dash: {0}, off: {0}, rule: 0..3, img: {0}]
 \* a draw without fill and stroke records nothing (Context.DrawPath returns): repaired to a black fill
 \* (a dash offset without a dash array is kept out of the bulk programs: the pdf back-end does not terminate on a negative one --
